@@ -34,6 +34,10 @@ pub fn render_header(header: &vcf::Header) -> io::Result<String> {
 pub fn render_record(header: &vcf::Header, rec: &dyn vcf::variant::Record) -> io::Result<String> {
     let mut w = vcf::io::Writer::new(Vec::new());
     w.write_variant_record(header, rec)?;
+    // the derived accessors the text writer does not use (span and end position, as the indexers
+    // and region queries do); their results are not part of the rendering, only must not panic
+    let _ = rec.variant_span(header);
+    let _ = rec.variant_end(header);
     let mut v = w.into_inner();
     if v.last() == Some(&b'\n') {
         v.pop();
